@@ -640,7 +640,7 @@ func runSchedules(e *core.Env) {
 			ordersMu.Lock()
 			orders[oh] = struct{}{}
 			ordersMu.Unlock()
-			if reps > 1 && i%250 == 0 {
+			if reps > 1 && i%250 == 0 && i < 5000 {
 				rec.Class("order:case%d:%016x", i, oh)
 			}
 			rec.Count("operations", int64(len(evs)))
